@@ -18,7 +18,7 @@ META = {
     "note": "Trusted: Coq kernel/vm_compute with primitive floats; real-number axioms listed by Print Assumptions; the "
             "'same term, different NumOps instance' argument; hand transcription coq/C16/FilterDefs.v validated bit for bit on "
             "the generated cases only; memmove modelled as list shift. Float saturation of gen for extreme fc*ts is checked on a grid, not proved.",
-    "technique": "Rocq proof over R (list induction with explicit histories, nra, Coquelicot limits) + bit-exact primitive-float model vs C correspondence",
+    "technique": "Rocq proof over R (list induction with explicit histories, nra, Coquelicot limits) + lpf/hpf regenerated from the headers by a translator and re-tied by conversion on every run + bit-exact primitive-float model vs C correspondence",
 }
 
 H = vlib.VERIF / "harness" / "C16"
@@ -134,6 +134,9 @@ def oracle(meta, out):
 
 def run(ctx):
     ctx.prove()
+    # second tie: lpf/hpf are REGENERATED from the current headers by the translator and re-tied to the proved model
+    ctx.translate_and_tie([(str(H / "rc_unit.c"), ["a_lpf_gen", "a_hpf_gen", "a_lpf_iter", "a_hpf_iter", "a_lpf_zero", "a_hpf_zero"])],
+                          "GenRc", H / "TieRc.v")
     ctx.assumptions += ["binary64 rounding is not part of the theorems; integer-valued cases are compared with an exact rational reference",
                         "C built with gcc -O2 -ffp-contract=off"]
     cbin = ctx.cc("drv", [H / "drv.c"], repo_srcs=["tf.c", "math.c", "a.c"], mode="num", extra=["-fsanitize=address"])
